@@ -443,8 +443,19 @@ pub fn exec(s: &Script, st: &mut Stats) -> Result<RunInfo, Violation> {
         for r in from..from + count as usize {
             plain.clear();
             if s.c("phase_noise") != 0 {
+                // two-dimensional phase: l literals (one code byte, one flag bit each) and m short matches (three code
+                // bytes, one flag bit each) in front, so that both the fill level of the code buffer and the position
+                // inside the current flag byte take every combination at the instant the buffer gets tight
                 let pre = s.blob("phase_prefix");
-                plain.extend_from_slice(&pre[..r.min(pre.len())]);
+                let idx = r - from;
+                let (l, m) = (idx % 32, idx / 32);
+                plain.extend_from_slice(&pre[..l.min(pre.len())]);
+                let w = [pre[40], pre[41] ^ 0x5A, pre[42], pre[43] ^ 0xA5];
+                plain.extend_from_slice(&w);
+                for j in 0..m {
+                    plain.extend_from_slice(&w);
+                    plain.push(pre[44 + j % 64].wrapping_add(j as u8));
+                }
             } else {
                 plain.resize(r, s.c("phase_byte") as u8);
             }
